@@ -50,21 +50,53 @@ impl Shadow {
     }
 }
 
+thread_local! {
+    /// events taken out of the hook sink by `AfterLearned` while a history runs (handed back at the end)
+    static STASH: std::cell::RefCell<Vec<pumpkin_solver::verif::Event>> = const { std::cell::RefCell::new(Vec::new()) };
+    static FIRED_AFTER_LEARNED: std::cell::Cell<u64> = const { std::cell::Cell::new(0) };
+}
+
+/// Fires once, at the first poll after the `j`-th nogood learned since the condition was created – the
+/// moment at which the asserting (possibly unit, root-level) nogood has been posted but nothing has been
+/// propagated yet.
+struct AfterLearned {
+    j: usize,
+    seen: usize,
+    fired: bool,
+    polls: u64,
+}
+impl AfterLearned {
+    fn should_stop(&mut self) -> bool {
+        self.polls += 1;
+        let evs = pumpkin_solver::verif::drain();
+        self.seen += evs.iter().filter(|e| matches!(e, pumpkin_solver::verif::Event::Learned { .. })).count();
+        STASH.with(|s| s.borrow_mut().extend(evs));
+        if !self.fired && self.seen >= self.j {
+            self.fired = true;
+            FIRED_AFTER_LEARNED.with(|c| c.set(c.get() + 1));
+            return true;
+        }
+        self.polls > 5_000_000
+    }
+}
+
 enum Term {
     Never(Budget),
     At(StopAt),
+    AfterLearned(AfterLearned),
 }
 impl TerminationCondition for Term {
     fn should_stop(&mut self) -> bool {
         match self {
             Term::Never(b) => b.should_stop(),
             Term::At(s) => s.should_stop(),
+            Term::AfterLearned(a) => a.should_stop(),
         }
     }
 }
 impl Term {
     fn fired_deliberately(&self) -> bool {
-        matches!(self, Term::At(s) if s.fired)
+        matches!(self, Term::At(s) if s.fired) || matches!(self, Term::AfterLearned(a) if a.fired)
     }
 }
 
@@ -101,16 +133,22 @@ pub fn run_c10(case: &Case) -> Outcome {
             // in whatever state the interruption found it in)
             let op = if after_interrupt && r.gen_bool(0.4) { 0 } else { r.gen_range(0..9) };
             after_interrupt = false;
-            // a quarter of the solves is interrupted: half of those at poll 0-5, the others at a poll
-            // drawn log-uniformly up to ~360 (so that interruptions also land after conflicts)
-            let fire_at: Option<u64> = if r.gen_range(0..4) == 0 {
-                Some(if r.gen_bool(0.5) { r.gen_range(0..6) } else { 2f64.powf(r.gen_range(0.0..8.5)) as u64 })
+            // a quarter of the solves is interrupted: a third of those at poll 0-5, a third at a poll drawn
+            // log-uniformly up to ~360 (so that interruptions also land after conflicts), a third at the first
+            // poll after the j-th nogood learned by that solve (j = 1..3; never, if it learns fewer)
+            let fire_at: Option<(u8, u64)> = if r.gen_range(0..4) == 0 {
+                Some(match r.gen_range(0..3) {
+                    0 => (0, r.gen_range(0..6)),
+                    1 => (0, 2f64.powf(r.gen_range(0.0..8.5)) as u64),
+                    _ => (1, r.gen_range(1..=3)),
+                })
             } else {
                 None
             };
             let mk_term = |m: &Model| match fire_at {
                 None => Term::Never(Budget::for_model(m)),
-                Some(k) => Term::At(StopAt::new(Some(k), 5_000_000)),
+                Some((0, k)) => Term::At(StopAt::new(Some(k), 5_000_000)),
+                Some((_, j)) => Term::AfterLearned(AfterLearned { j: j as usize, seen: 0, fired: false, polls: 0 }),
             };
             match op {
                 0 if nvars < pool.vars.len() && !dead && sh.cuts.is_empty() => {
@@ -455,7 +493,9 @@ pub fn run_c10(case: &Case) -> Outcome {
         let _ = dead;
         out
     });
-    let ev = pumpkin_solver::verif::drain();
+    let mut ev = STASH.with(|s| std::mem::take(&mut *s.borrow_mut()));
+    ev.extend(pumpkin_solver::verif::drain());
+    out.count("solves_interrupted_right_after_a_learned_nogood", FIRED_AFTER_LEARNED.with(|c| c.replace(0)));
     pumpkin_solver::verif::disable();
     if let Err(p) = &res {
         let p = p.clone();
